@@ -16,9 +16,18 @@ Inductive wtype := Fixed | SlidingLog | SlidingCounter.
 Record cfg := mkCfg {
   wt : wtype;
   limit : Z;          (* limit_for_period *)
-  period : Z;         (* refresh_period, ms *)
-  timeout : Z         (* timeout_duration, ms *)
+  period : Z;         (* refresh_period, ms; [dur_max] = Duration::MAX *)
+  timeout : Z;        (* timeout_duration, ms; [dur_max] = Duration::MAX *)
+  origin : Z          (* the limiter's creation instant as std::time::Instant sees it: ms since the
+                         Instant epoch (the model's clock counts from the creation, instant 0) *)
 }.
+
+(* Duration::MAX = u64::MAX s + 999_999_999 ns, rounded up to the next whole ms: larger than every
+   whole-ms duration, which is all that comparisons need *)
+Definition dur_max : Z := 2 ^ 64 * 1000.
+(* the largest whole-ms offset from the epoch that Instant (i64 seconds + nanoseconds) can hold:
+   Instant::checked_add fails beyond it *)
+Definition instant_max : Z := (2 ^ 63 - 1) * 1000 + 999.
 
 (* a wait: num/den milliseconds *)
 Definition wait := (Z * Z)%type.
@@ -62,6 +71,13 @@ Fixpoint prune (c : cfg) (now : Z) (l : list Z) : list Z :=
   | [] => []
   end.
 
+(* oldest.checked_add(window).map(|x| x.saturating_duration_since(now)): when the expiry is not
+   representable as an Instant the slot never frees, wait Duration::MAX (fix 3a55d77; it used
+   to be ZERO = "permit consumed") *)
+Definition log_wait (c : cfg) (now oldest : Z) : Z :=
+  if instant_max <? origin c + oldest + period c then dur_max
+  else Z.max 0 (oldest + period c - now).
+
 Definition log_try (c : cfg) (now : Z) (l : lim) : lim * acq :=
   let lg := prune c now (rlog l) in
   if Z.of_nat (length lg) <? limit c then
@@ -72,7 +88,7 @@ Definition log_try (c : cfg) (now : Z) (l : lim) : lim * acq :=
                     (wins l) (adms l) in
     match lg with
     | oldest :: _ =>
-      let w := Z.max 0 (oldest + period c - now) in
+      let w := log_wait c now oldest in
       if timeout c <? w then (l1, AErr)
       else if w =? 0 then (l1, AOk None) else (l1, AOk (Some (w, 1)))
     | [] => (l1, AOk None)      (* "should not happen if limit > 0" *)
@@ -103,11 +119,16 @@ Definition counter_wait (c : cfg) (e : Z) (l : lim) : wait :=
 (* wait > timeout, for wait = num/den ms *)
 Definition wait_gt (w : wait) (t : Z) : bool := t * snd w <? fst w.
 
+(* weighted = prev*(1 - e/P) + cur < limit  <=>  prev*(P-e) + cur*P < limit*P; a zero-length
+   bucket is always over: elapsed_ratio = 1, weighted = current (fix 5ffed58) *)
+Definition counter_has_room (c : cfg) (l : lim) (e : Z) : bool :=
+  if period c =? 0 then curc l <? limit c
+  else prevc l * (period c - e) + curc l * period c <? limit c * period c.
+
 Definition counter_try (c : cfg) (now : Z) (l0 : lim) : lim * acq :=
   let l := rotate c now l0 in
   let e := Z.min (Z.max 0 (now - bucket_start l)) (period c) in
-  (* weighted = prev*(1 - e/P) + cur < limit  <=>  prev*(P-e) + cur*P < limit*P *)
-  if prevc l * (period c - e) + curc l * period c <? limit c * period c then
+  if counter_has_room c l e then
     (mkLim (permits l) (period_start l) (rlog l) (prevc l) (curc l + 1) (bucket_start l)
            (bump_head now (wins l)) (now :: adms l), AOk None)
   else
@@ -177,8 +198,9 @@ Definition acquire_round (c : cfg) (s : st) (i : nat) (start : Z) : st * obs :=
     poll_running (mkSt (now s) l' (upd (cs s) i Running) (gate s) (woken s) (inflight s + 1)
                        (upd (entered s) i (entered s i + 1)) (arrival s)) i true
   | AOk (Some w) =>
-    (* start.elapsed() + wait > timeout  =>  rejected *)
-    if wait_gt (fst w + (now s - start) * snd w, snd w) (timeout c) then
+    (* start.elapsed().saturating_add(wait) > timeout  =>  rejected (fix a8700d2: the sum saturates at
+       Duration::MAX instead of panicking; with timeout = Duration::MAX nothing is ever rejected here) *)
+    if wait_gt (Z.min (fst w + (now s - start) * snd w) (dur_max * snd w), snd w) (timeout c) then
       (mkSt (now s) l' (upd (cs s) i Done) (gate s) (woken s) (inflight s) (entered s) (arrival s),
        {| r := 3; started := false |})
     else
@@ -250,22 +272,25 @@ Definition step_st (c : cfg) (s : st) (e : ev) : st := fst (step c s e).
 
 (* ---- script interface ----
    script = [window type (0 fixed, 1 sliding log, 2 sliding counter); limit; period ms;
-             timeout ms; n; (op a b)*]
-     op 1 Poll a | 2 Drop a | 3 Advance a ms | 4 Complete a b (0 ok 1 err 2 panic)
+             timeout ms; n + 1000 * mode; (op a b)*]   (durations: see dur_of)
+     op 1 Poll a | 2 Drop a | 3 Advance a ms | 4 Complete a b (0 ok 1 err 2 panic) | 5 Call a | 6 Jump a ms
    trace = per event [r; started; in-flight; wake mask] *)
 Definition outcome_of (z : Z) : outcome :=
   if z =? 0 then OOk else if z =? 1 then OErr else OPanic.
 
 Definition ev_of (t : Z * Z * Z) : option ev :=
   let '(op, a, b) := t in
-  let i := Z.to_nat a in
-  if op =? 1 then Some (Poll i) else
-  if op =? 2 then Some (Drop i) else
+  (* Z.to_nat only where a is a caller id: the extracted code is strict and a jump may be 10^10 ms *)
+  if op =? 1 then Some (Poll (Z.to_nat a)) else
+  if op =? 2 then Some (Drop (Z.to_nat a)) else
   if op =? 3 then Some (Advance a) else
-  if op =? 4 then Some (Complete i (outcome_of b)) else
-  if op =? 5 then Some (Advance 0) else None.
+  if op =? 4 then Some (Complete (Z.to_nat a) (outcome_of b)) else
+  if op =? 5 then Some (Advance 0) else
+  if op =? 6 then Some (Advance a) else None.
   (* op 5 = the call future of caller a is created (call()) without being polled: nothing
-     happens in call() for this layer, so the model treats it as a no-op *)
+     happens in call() for this layer, so the model treats it as a no-op.
+     op 6 = the clock jumps a ms in ONE step (the driver's op 3 advances 1 ms at a time): the
+     same event for the model *)
 
 Fixpoint evs_of (l : list (Z * Z * Z)) : list ev :=
   match l with
@@ -284,9 +309,20 @@ Fixpoint run_evs (c : cfg) (n : nat) (s : st) (evs : list ev) : list Z :=
     [r o; b2z (started o); inflight s'; wake_mask s' n] ++ run_evs c n s' rest
   end.
 
+(* durations in a script: z < 10^15: z ms; 10^15 <= z < 2*10^15: Duration::MAX;
+   z >= 2*10^15: Duration::from_secs(z - 2*10^15) (seconds capped at u64::MAX) *)
+Definition dur_of (z : Z) : Z :=
+  if 2 * 10 ^ 15 <=? z then Z.min (z - 2 * 10 ^ 15) (2 ^ 64 - 1) * 1000
+  else if 10 ^ 15 <=? z then dur_max else z.
+
+(* the driver's virtual CLOCK_MONOTONIC starts at 10^6 s *)
+Definition harness_origin : Z := 1000000000.
+
 Definition cfg_of (sc : list Z) : cfg :=
   mkCfg (if zn sc 0 =? 0 then Fixed else if zn sc 0 =? 1 then SlidingLog else SlidingCounter)
-        (zn sc 1) (zn sc 2) (zn sc 3).
+        (zn sc 1) (dur_of (zn sc 2)) (dur_of (zn sc 3)) harness_origin.
 
+(* zn sc 4 = n + 1000 * mode; mode (which service values the callers call through) is the driver's
+   business: one limiter behind all of them *)
 Definition run_script (sc : list Z) : list Z :=
-  run_evs (cfg_of sc) (Z.to_nat (zn sc 4)) (init (cfg_of sc)) (evs_of (chunk3 (skipn 5 sc))).
+  run_evs (cfg_of sc) (Z.to_nat (zn sc 4 mod 1000)) (init (cfg_of sc)) (evs_of (chunk3 (skipn 5 sc))).
